@@ -437,8 +437,7 @@ def canon_model_uid(j, cm):
     return cm[key]
 
 
-def canon_model_render(r):
-    cm = {}
+def canon_model_render(r, cm):
     groups = [(n, canon_model_uid(u, cm)) for n, u in r["groups"]]
     occs = [(s, k, n, canon_model_uid(u, cm)) for s, k, n, u in r["occs"] if s != "campEventHidden"]
     return occs, groups
@@ -627,13 +626,14 @@ def check_case(spec, req, model, real):
                 ties.append({"what": "different conflict reported (name, new uuid, recorded uuid)", "model": mm, "real": rr})
     if m_err is None and real["error"] is None and len(real["outs"]) != n_ok_model:
         ties.append({"what": "number of successful renders differs", "model": n_ok_model, "real": len(real["outs"])})
+    cn = Canon(fixed)  # one renaming for all renders of the case: a uuid that changes between renders shows
+    cm = {}
     for i, out in enumerate(real["outs"]):
         occs, groups = scan_output(out)
-        cn = Canon(fixed)
         cg = [(n, cn(u)) for n, u in groups]
         co = [(s, k, n, cn(u)) for s, k, n, u in occs]
         if i < len(renders) and "ok" in renders[i]:
-            mo, mg = canon_model_render(renders[i]["ok"])
+            mo, mg = canon_model_render(renders[i]["ok"], cm)
             mo = [tuple(x) for x in mo]
             if mg != cg or mo != co:
                 ties.append({"what": f"render {i + 1}: uuids of the real output differ from the model",
@@ -709,6 +709,7 @@ def check_case(spec, req, model, real):
     if real["error"] and real["error"]["type"].startswith("other:"):
         viol.append({"what": "unexpected exception", "error": real["error"]})
     info["expected_error"] = bool(reasons)
+    info["expect"] = sorted({r[0] for r in reasons}) or ["ok"]
     return ties, viol, info
 
 
@@ -942,6 +943,8 @@ def _fold(ck, specs, results, stream):
         ck.count("occurrences", r["n_occ"])
         if info.get("expected_error"):
             ck.count("property_demands_error")
+        for e in info.get("expect", []):
+            ck.count("expect." + e)
         for t in r["ties"]:
             ck.tie_break(t["what"], {"spec": spec, "detail": t})
         for fid, ex in info["known"]:
@@ -1019,7 +1022,7 @@ def run(ck: core.Check):
     flat_res = [r for sh in res for r in sh]
     _fold(ck, flat_specs, flat_res, "main")
 
-    for need in ("main.sheets", "main.dict", "main.api", "outcome.conflict", "outcome.triggerUnknownFlow", "outcome.rendered", "renders=3"):
+    for need in ("main.sheets", "main.dict", "main.api", "expect.conflict", "expect.trigger_unknown", "expect.ok", "renders=3"):
         if not ck.strata.get(need):
             raise core.Infra(f"generator self-check: stratum {need} is empty")
 
